@@ -91,6 +91,52 @@ def o_request(ctx, entries, via_lvl, second=False):
             ctx.check(s_or(*[s_and(a == cand, k != rid) for k, a in before]) if before else False,
                       "nothing is granted only when every slot of that parent is leased to another ID")
     ctx.observe("after", [[k, a] for k, a in after])
+    # a following frame that is NOT an address request (a look-up from a connected node, carrying a non-zero reserved byte)
+    # must not be served as one: asking never disturbs the master
+    if entries <= 2:
+        lk = [0o3, 0, 0, 0, 9, 0, 196, ctx.int("lookup_reserved", 1, 255), 0]
+        radio.inject_rx(2, lk)
+        node.update()
+        again = table_items(node)
+        ctx.check(len(again) == len(after), "a look-up after the request does not change the table")
+        for (k1, a1), (k2, a2) in zip(again, after):
+            ctx.check(s_and(k1 == k2, a1 == a2), "a look-up after the request does not change the table")
+    ctx.reached()
+
+
+def o_full_parent_then_lookup(ctx, direct):
+    """structured pre-state that makes *full* reachable cheaply: every slot below the via node is leased (symbolic distinct
+    IDs); a request through it is not served; a following look-up from another connected node must not be served as a request"""
+    clock = fresh_env(ctx)
+    radio, node, _ = build_node(ctx, clock, "master", 0)
+    link, _o = per_packet_link(ctx, radio)
+    via = 0 if direct else 0o2
+    slots = [1, 2, 3, 4, 5] if direct else [0o12, 0o22, 0o32, 0o42]
+    ids = []
+    for i, a in enumerate(slots):
+        k = ctx.int("held_id%d" % i, 1, 255)
+        for o in ids:
+            ctx.assume(k != o)
+        ids.append(k)
+    tab = [[k, a] for k, a in zip(ids, slots)]
+    node.dhcp_dict = SymDict(tab) if ctx.symbolic else dict((k, a) for k, a in tab)
+    rid = ctx.int("req_id", 1, 255)
+    for o in ids:
+        ctx.assume(rid != o)
+    origin = 0o4444 if direct else via
+    radio.inject_rx(0 if direct else 2, [origin & 0xFF, origin >> 8, 0, 0, 1, 0, 195, rid])
+    sent0 = len(radio.sent)
+    node.update()
+    after = table_items(node)
+    ctx.check(len(after) == len(tab), "a full parent grants nothing")
+    ctx.check(len(distinct_packets(radio, sent0)) == 0, "and sends no address response")
+    r2 = ctx.int("lookup_reserved", 1, 255)
+    radio.inject_rx(3, [0o3 if direct else 1, 0, 0, 0, 9, 0, 196, r2, ctx.int("lookup_id", 0, 255)])
+    node.update()
+    again = table_items(node)
+    ctx.check(len(again) == len(tab), "a look-up after an unserved request does not change the table (asking never disturbs the master)")
+    for (k1, a1), (k2, a2) in zip(again, tab):
+        ctx.check(s_and(k1 == k2, a1 == a2), "a look-up after an unserved request does not change the table")
     ctx.reached()
 
 
@@ -149,6 +195,8 @@ def jobs(tier):
         for via in range(4):
             out.append(Job("request-step", o_request, dict(entries=k, via_lvl=via), cost=4 ** k, shards=(1 if k < 3 else 4 if k == 3 else 12)))
         out.append(Job("release-step", o_release, dict(entries=k), cost=2 ** k))
+    for direct in (True, False):
+        out.append(Job("full-parent-then-lookup", o_full_parent_then_lookup, dict(direct=direct), cost=20, shards=4))
     for k in ((0, 1, 3) if tier == "quick" else (0, 1, 2, 3, 4)):
         for as_bin in (False, True):
             for into in ("fresh", "same", "scrambled"):
@@ -158,7 +206,8 @@ def jobs(tier):
 
 META = {
     "bounds": {"quick": "arbitrary valid tables of 0..4 symbolic leases; request with symbolic ID 1..255, direct or relayed by a "
-                        "symbolic node of level 1, 2, 3 (all addresses); release from a symbolic valid origin; save/load of "
+                        "symbolic node of level 1, 2, 3 (all addresses); release from a symbolic valid origin; the structured full-parent pre-state (5 direct / 4 relayed slots leased to "
+                        "symbolic IDs) followed by a look-up; save/load of "
                         "tables with 0/1/3 symbolic leases in both formats into a fresh master, the same master and a master "
                         "holding a stale lease",
                "thorough": "tables of up to 5 symbolic leases"},
